@@ -48,6 +48,10 @@ import time
 # Multicast address used for STP 802.1D
 _STP_MAC = EthAddr('01:80:c2:00:00:00')
 
+# Most of an offending message we can put into an error message (which
+# can't be longer than 65535 bytes itself)
+MAX_ERROR_DATA = 0xffff - len(ofp_error())
+
 
 class DpPacketOut (Event):
   """
@@ -465,6 +469,8 @@ class SoftwareSwitchBase (object):
       err.xid = 0
     if data is not None:
       err.data = data
+    # The error has a 16 bit length of its own
+    err.data = err.data[:MAX_ERROR_DATA]
     self.send(err, connection = connection)
 
   def rx_packet (self, packet, in_port, packet_data = None):
@@ -1240,7 +1246,7 @@ class OFConnection (object):
         message = self.io_worker.peek()
         err = ofp_error(type=OFPET_BAD_REQUEST, code=OFPBRC_BAD_TYPE)
         err.xid = self._extract_message_xid(message)
-        err.data = message[:message_length]
+        err.data = message[:min(message_length, MAX_ERROR_DATA)]
         self.send(err)
       elif reason == OFConnection.ERR_BAD_LENGTH:
         msg_obj, message_length, new_offset = info
@@ -1250,7 +1256,7 @@ class OFConnection (object):
         message = self.io_worker.peek()
         err = ofp_error(type=OFPET_BAD_REQUEST, code=OFPBRC_BAD_LEN)
         err.xid = self._extract_message_xid(message)
-        err.data = message[:message_length]
+        err.data = message[:min(message_length, MAX_ERROR_DATA)]
         self.send(err)
       elif reason == OFConnection.ERR_EXCEPTION:
         ex, raw_message, msg_obj = info
